@@ -371,7 +371,7 @@ func (s *vC17Sys) Key() string {
 func init() {
 	vRegister(&vCheck{
 		ID: "C17", Level: "model_checking", Engine: "histmc",
-		Rule:        "BFS over Open (3 handle slots) / Open with one injected file-system fault (MkdirAll, OpenFile(LOCK), WriteString, ReadDir #1, ReadDir #2) / foreign LOCK appearing and disappearing (= another process) / Close (open or already closed handle) / Add+Rotate on an open handle, on the real store over the in-memory file system under the controlled scheduler; after every transition: Open succeeds iff the directory is unowned, a failed Open leaves the directory image byte-for-byte unchanged (no lock left behind, an existing lock not removed), Close releases the lock, second Close fails and changes nothing, LOCK present iff owned, never two open handles, and EVERY public method on EVERY closed handle fails, changes nothing and does not panic/deadlock. Concurrent scenarios (Open||Open, Close||Open, Close||Close, Close||use) are explored by the schedmc shards. Non-trivial = distinct (state, closed handle, method) use-after-close evaluations.",
+		Rule:        "BFS over Open (3 handle slots) / Open with one injected file-system fault (MkdirAll, OpenFile(LOCK), WriteString, ReadDir #1, ReadDir #2) / foreign LOCK appearing and disappearing (= another process) / Close (open or already closed handle) / Add+Rotate on an open handle, on the real store over the in-memory file system under the controlled scheduler; after every transition: Open succeeds iff the directory is unowned, a failed Open leaves the directory image byte-for-byte unchanged (no lock left behind, an existing lock not removed), Close releases the lock, second Close fails and changes nothing, LOCK present iff owned, never two open handles, and EVERY public method on EVERY closed handle fails, changes nothing and does not panic/deadlock. Concurrent scenarios (Open||Open, Close||Open, Close||Close, Close||use) are explored by the schedmc shards. Non-trivial = distinct (state, closed handle, method) use-after-close evaluations. The in-memory file system implements hard links and SameFile (node identity), so lock protocols built on link(2) are explored like the O_EXCL one.",
 		Assumptions: []string{"'another process' is represented by a LOCK file already present", "unreadable/unlistable directory is produced by fault injection in the file-system seam (root ignores permission bits)"},
 		Shards: func(tier string) []vShard {
 			depth := 8
